@@ -1,6 +1,8 @@
 use crate::core::{Ctx, Report};
 use serde_json::Value;
 
+pub mod c02;
+pub mod c06;
 pub mod c09;
 pub mod c10;
 pub mod c16;
@@ -8,6 +10,8 @@ pub mod e2e_paths;
 
 pub fn run(ctx: &Ctx) -> Option<Report> {
     match ctx.id.as_str() {
+        "C02" => Some(c02::run(ctx)),
+        "C06" => Some(c06::run(ctx)),
         "C09" => Some(c09::run(ctx)),
         "C10" => Some(c10::run(ctx)),
         "C16" => Some(c16::run(ctx)),
@@ -19,6 +23,7 @@ pub fn replay(id: &str, doc: &Value) -> i32 {
     let case = &doc["case"];
     match id {
         _ if !case["e2e"].is_null() => crate::e2e::replay(case),
+        "C06" => c06::replay(case),
         "C09" => c09::replay(case),
         "C10" => c10::replay(case),
         "C16" => c16::replay(case),
